@@ -271,6 +271,7 @@ type GenParams struct {
 	SimpleCols                                                            bool
 	ExactCols                                                             int // > 0: every table has exactly this many columns
 	SparseImages                                                          bool // partial row images carry only 1-3 columns
+	ExactRows int // > 0: every rows event has exactly this many rows
 }
 
 func randName(r *rand.Rand, n int) string {
@@ -371,6 +372,9 @@ func genRowsEv(r *rand.Rand, kind string, t *Table, gp GenParams, ts uint32) *Ev
 		pb, pa = sparse(), sparse()
 	}
 	nrows := 1 + r.Intn(gp.MaxRows)
+	if gp.ExactRows > 0 {
+		nrows = gp.ExactRows
+	}
 	for i := 0; i < nrows; i++ {
 		rp := RowPair{}
 		if kind != "write" {
